@@ -27,6 +27,39 @@ PER = {"quick": {"default_cap": 500, "small_cap": 150, "collide": 150, "adopted_
 STEPS = {"quick": 35, "thorough": 60}
 
 
+def _nested_caps_case(info, spec, r, g, ms, inits, roots):
+    """Nested backend-wide contexts with explicit capacities: a huge one outside, a capacity-0 one entered and left
+    inside it (entering it flushes, which is taken over), and writes afterwards - with the huge capacity back in
+    force they must be deferred to the outermost exit like all others."""
+    steps = []
+    outer_obj = r.random() < 0.4
+    if outer_obj:
+        st = {"enter": "obj", "h": 0}
+        steps.append(st)
+        ms.enter(st)
+    st = {"enter": "backend", "cap": 10**9}
+    steps.append(st)
+    ms.enter(st)
+    steps.extend(gen.gen_program(g, ms, r.choice([0, 1, 3]), p_read=0.3, depth=2))
+    for _ in range(r.choice([1, 1, 2])):
+        st = {"enter": "backend", "cap": 0, "flushes": True}
+        steps.append(st)
+        ms.enter(st)
+        steps.append({"exit": 1})
+        ms.exit()
+        steps.extend(gen.gen_program(g, ms, r.choice([2, 4, 6]), p_read=0.3, depth=2))
+    steps.append({"exit": 1})
+    ms.exit()
+    if outer_obj:
+        steps.extend(gen.gen_program(g, ms, 2, p_read=0.3, depth=2, handles=[0]))
+        steps.append({"exit": 1})
+        ms.exit()
+    steps.extend(gen.gen_program(g, ms, 2, p_read=1.0, depth=2))
+    return {"cls": info.name, "cfg": spec["cfg"], "res": inits, "roots": roots, "steps": steps,
+            "stratum": spec["stratum"], "nested_caps": True,
+            "oracle": {"results": True, "resource_strict": True, "buffer_defers": True}}
+
+
 def plan(tier, seed):
     combos = [(c, {"wc": False, "threading": True}) for c in catalog.BUFFERED_CLASSES]
     combos += [(c, {"wc": True, "threading": False}) for c in catalog.BUFFERED_CLASSES]
@@ -41,7 +74,7 @@ def make_case(spec, i, tag="C05", nres=None, p_read=0.35):
     r = gen.rng_for(spec["seed"], tag, spec["cls"], spec["cfg"], spec["stratum"], i)
     # stratum collide: scalars that are ==-equal across JSON types (1 / True / 1.0 / 0 / False / 0.0) and a
     # preference for reset()/update() as the first buffered access
-    g = gen.G(r, attr=info.attr, collide=spec["stratum"] == "collide")
+    g = gen.G(r, attr=info.attr, collide=spec["stratum"] == "collide", surrogates=True)
     nres = nres or r.choice([1, 1, 2])
     inits = [MISSING if r.random() < 0.15 else g.shape(info.kind, 2) for _ in range(nres)]
     ms = ModelState(info.kind, inits)
@@ -59,6 +92,8 @@ def make_case(spec, i, tag="C05", nres=None, p_read=0.35):
         return _witness_d20(info, spec)
     if spec["stratum"] == "collide" and r.random() < 0.4:
         return _type_flip_case(info, spec, r)
+    if spec["stratum"] == "default_cap" and r.random() < 0.12:
+        return _nested_caps_case(info, spec, r, g, ms, inits, roots)
     while len(steps) < n:
         x = r.random()
         if x < 0.14 and depth < 4:
